@@ -146,8 +146,11 @@ func gateHelpers(disp *ssa.Function) []*ssa.Function {
 		if res.Len() != 1 {
 			continue
 		}
+		// a bool ("may proceed") or an error ("refused")
 		if bt, ok := res.At(0).Type().(*types.Basic); !ok || bt.Kind() != types.Bool {
-			continue
+			if !isErrorType(res.At(0).Type()) {
+				continue
+			}
 		}
 		seen[h] = true
 		out = append(out, h)
@@ -320,6 +323,45 @@ func ruleR2_1(r *Run) {
 				}
 			})
 			var res *bool
+			if isErrorType(h.Signature.Results().At(0).Type()) {
+				// nil on every feasible return, or certainly an error on every feasible return
+				nNil, nErr, nOther := 0, 0, 0
+				for _, hb := range h.Blocks {
+					if !hs.Feasible[hb] {
+						continue
+					}
+					ret, ok := hb.Instrs[len(hb.Instrs)-1].(*ssa.Return)
+					if !ok || len(ret.Results) != 1 {
+						continue
+					}
+					switch rv := ret.Results[0].(type) {
+					case *ssa.Const:
+						if rv.IsNil() {
+							nNil++
+						} else {
+							nOther++
+						}
+					case *ssa.Call:
+						if callee := rv.Call.StaticCallee(); callee != nil && (callee.Name() == "Errorf" || callee.Name() == "New") {
+							nErr++
+						} else {
+							nOther++
+						}
+					case *ssa.MakeInterface:
+						nErr++
+					default:
+						// an error passed on from a callee (LockedUUID's): taken on its err != nil edge
+						nErr++
+					}
+				}
+				switch {
+				case nOther == 0 && nErr == 0 && nNil > 0:
+					return AVal{K: ANil}, true
+				case nOther == 0 && nNil == 0 && nErr > 0:
+					return aTag("nonnil"), true
+				}
+				return unknown, false
+			}
 			for _, hb := range h.Blocks {
 				if !hs.Feasible[hb] {
 					continue
